@@ -164,3 +164,13 @@ func ErrStr(err error) string {
 	}
 	return err.Error()
 }
+
+// YieldAccept is the default accept policy preceded by a scheduling point: it
+// sits between the server's header parse and its decode of the body.
+type YieldAccept struct{ K *kernel.K }
+
+//go:norace
+func (y *YieldAccept) Accept(dh dns.Header) dns.MsgAcceptAction {
+	y.K.Yield("accept", 0)
+	return dns.DefaultMsgAcceptFunc(dh)
+}
